@@ -33,6 +33,7 @@ func writeBarrierSlices(w *bufio.Writer, s *vt.Sched, tag string) int {
 	// Looked for among the thread's own events up to its next step that changes the waiters'
 	// inputs (or, for closeChannels, up to the end of the enclosing Stop / Restart).
 	isInput := func(k int, ev vt.Event) bool {
+		ev = normStatus(ev)
 		si := siteTab[ev.Site]
 		if coveredMarks[k] {
 			return false // its effect was placed at the length word's change
@@ -53,7 +54,7 @@ func writeBarrierSlices(w *bufio.Writer, s *vt.Sched, tag string) int {
 	goesOn := func(idx, t int, wholeCall bool) string {
 		depth := 0
 		for k := idx + 1; k < len(s.Log); k++ {
-			ev := s.Log[k]
+			ev := normStatus(s.Log[k])
 			if ev.Tid != t {
 				continue
 			}
@@ -98,7 +99,7 @@ func writeBarrierSlices(w *bufio.Writer, s *vt.Sched, tag string) int {
 		add(idx, fmt.Sprintf("binput %d %d %d %d %s", t, st, cur, ln, goesOn(idx, t, false)))
 	}
 	for idx, ev0 := range s.Log {
-		ev := ev0
+		ev := normStatus(ev0)
 		if tg, ok := tags[idx]; ok {
 			ev = vt.Event{Tid: ev0.Tid, Kind: tg.kind, Obj: tg.job, Val: tg.val}
 		} else if coveredMarks[idx] {
@@ -274,6 +275,7 @@ func writeWakeSlicesShared(w *bufio.Writer, s *vt.Sched, tag string) int {
 	pend := 0
 	frameW := map[int]int{} // thread -> worker of its innermost worker.* frame (last seen)
 	for idx, ev := range s.Log {
+		ev = normStatus(ev)
 		si := siteTab[ev.Site]
 		fn := si.Func
 		t := ev.Tid
